@@ -203,7 +203,7 @@ def case_strategy(gate: specgen.Gate, docs_per_schema: int = 8):
 
 
 def shards(tier: str, seed: int) -> list[dict]:
-    n_sh, per = (16, 220) if tier == "quick" else (48, 1500)
+    n_sh, per = (16, 220) if tier == "quick" else (48, 800)
     return [{"seed": seed * 1000 + i, "n": per} for i in range(n_sh)]
 
 
